@@ -410,11 +410,11 @@ func runCF(line string, f []string) (o core.Outcome) {
 	} else if kind == 2 {
 		want = strconv.Itoa(st) // nobody handles it: the error's status
 		o.Tags = append(o.Tags, "cf:error-raised")
+		pe := p // the error routes see the original URI; a handle_path in one block strips the prefix for the blocks behind it too
 		for _, b := range ebs {
 			if !b.sel.selects(st) {
 				continue
 			}
-			pe := p // the error routes see the original URI
 			k2, st2 := cfEval(b.body, &pe)
 			if k2 == 1 {
 				want = strconv.Itoa(st2)
